@@ -58,15 +58,16 @@ MIN_EVENTS = {
               'crash_fired': 380, 'crash_points_update': 180, 'crash_points_delete': 80,
               'crash_points_delete_all': 60, 'crash_states_inspected': 380, 'recovery_updates': 380,
               'strace_runs': 5, 'strace_renames_onto_final': 4},
-    'thorough': {'oracle_evals': 300000, 'history_ops': 50000, 'fresh_store_views': 150000, 'roundtrips': 4000,
-                 'crash_points_line': 3000, 'crash_points_write': 30000, 'crash_points_fs': 1500,
-                 'crash_fired': 30000, 'crash_points_update': 10000, 'crash_points_delete': 4000,
-                 'crash_points_delete_all': 4000, 'crash_states_inspected': 30000,
-                 'strace_runs': 12, 'strace_renames_onto_final': 12},
+    'thorough': {'oracle_evals': 2000000, 'history_ops': 70000, 'fresh_store_views': 200000, 'roundtrips': 4032,
+                 'crash_points_line': 1100, 'crash_points_write': 4000, 'crash_points_fs': 480,
+                 'crash_fired': 5500, 'crash_points_update': 3500, 'crash_points_delete': 800,
+                 'crash_points_delete_all': 1000, 'crash_states_inspected': 5500, 'recovery_updates': 5500,
+                 'strace_runs': 15, 'strace_renames_onto_final': 11},
 }
 CASE_TIMEOUT = 3600          # a loaded machine stretches fork latency a hundredfold; expiry = inconclusive
 SHARD_TIMEOUT = {'quick': 1800, 'thorough': 14400}
-EXHAUSTIVE_NOTE = ('crash: for every configuration and every mode (line, write, write-half, fs) the crash '
+EXHAUSTIVE_NOTE = ('crash: for every planned configuration and each mode enabled for it (line, write, write-half, fs; '
+                   'listed in the case descriptor) the crash '
                    'index n runs 1,2,.. until the operation finishes without the failpoint firing, so every '
                    'LINE event of the JsonKeyStore/KeyStore code objects, every write() on a file in the '
                    'store directory and every before/after of mkdir/open/close/replace/rename/unlink is '
@@ -1287,8 +1288,10 @@ def plan(tier, seed):
                 crash.append(({**c, 'size': 'tiny'}, ['line', 'fs', 'write']))
     else:
         for c in cfgs:
-            modes = ['line', 'fs', 'write']
-            if c['store'] == 'named' and c['init'] == 'one':
+            modes = ['line', 'fs']
+            if not c['stale_tmp'] or c['op'] in ('update-new', 'delete'):
+                modes.append('write')
+            if c['store'] == 'named' and c['init'] == 'one' and not c['stale_tmp']:
                 modes.append('write-half')
             crash.append(({**c, 'size': 'tiny'}, modes))
         small = [('one', 'named', 'update-new'), ('one', 'default', 'update-merge'), ('multi', 'named', 'delete'),
@@ -1298,7 +1301,8 @@ def plan(tier, seed):
             if c['stale_tmp']:
                 continue
             if (c['init'], c['store'], c['op']) in small:
-                crash.append(({**c, 'size': 'small', 'seed': seed * 7 + k}, list(MODES)))
+                crash.append(({**c, 'size': 'small', 'seed': seed * 7 + k},
+                              list(MODES) if c['op'] == 'update-new' else ['line', 'write', 'fs']))
             if (c['init'], c['store'], c['op']) in big:
                 crash.append(({**c, 'size': 'big', 'seed': seed * 11 + k}, ['line', 'write', 'fs']))
     crash.sort(key=lambda cm: -sum(60 if 'write' in m else 25 for m in cm[1]))
